@@ -244,6 +244,20 @@ func mutatePrim(n *Node, rng *RNG) bool {
 	return true
 }
 
+// spoilValue replaces the value of the (first) attribute below an RDN copy by something a guard may not expect.
+func spoilValue(n *Node, rng *RNG) {
+	if n.Prim {
+		vals := [][]byte{nil, []byte("12345678"), []byte("x"), []byte(" "), []byte("ntrgb-1"), []byte("NTRXX-1"), []byte("A"), []byte("\xc2"), []byte("a.b"), []byte("LEIXG-1"), []byte("PSDDE-BAFIN-1"), []byte("VATDE+BY-1")}
+		if n.Tag != 0x06 { // keep the attribute type
+			n.Content = append([]byte{}, vals[rng.Intn(len(vals))]...)
+		}
+		return
+	}
+	for _, k := range n.Kids {
+		spoilValue(k, rng)
+	}
+}
+
 // mutants returns up to n parseable mutants of o.
 func mutants(o *Obj, rng *RNG, n int, rep *Report) []*Obj {
 	var out []*Obj
@@ -265,21 +279,51 @@ func mutants(o *Obj, rng *RNG, n int, rep *Report) []*Obj {
 			if err != nil || len(rest) != 0 || len(root.Kids) == 0 {
 				continue
 			}
-			// aim below the to-be-signed part, preferably inside extensions
+			// one to three edits per mutant, each aimed inside an extension value (mostly), at the subject name
+			// (duplicate an attribute, then spoil the copy: the shape guards like "every organizationIdentifier
+			// matches" have to survive), at a CRL entry, or anywhere below the to-be-signed part
 			tbs := root.Kids[0]
-			target := tbs
-			if o.Kind == "cert" && mode < 9 {
-				for _, k := range tbs.Kids {
-					if k.Tag == 0xA3 && len(k.Kids) == 1 && len(k.Kids[0].Kids) > 0 {
-						exts := k.Kids[0]
-						ext := exts.Kids[rng.Intn(len(exts.Kids))]
-						if len(ext.Kids) > 0 {
-							target = ext.Kids[len(ext.Kids)-1] // extnValue
+			steps := []int{1, 1, 1, 2, 2, 3}[rng.Intn(6)]
+			changed := false
+			for st := 0; st < steps; st++ {
+				target := tbs
+				where := rng.Intn(20)
+				if o.Kind == "cert" && where < 13 {
+					for _, k := range tbs.Kids {
+						if k.Tag == 0xA3 && len(k.Kids) == 1 && len(k.Kids[0].Kids) > 0 {
+							exts := k.Kids[0]
+							ext := exts.Kids[rng.Intn(len(exts.Kids))]
+							if len(ext.Kids) > 0 {
+								target = ext.Kids[len(ext.Kids)-1] // extnValue
+							}
+						}
+					}
+				} else if o.Kind == "cert" && where < 17 {
+					// the subject: first SEQUENCE after validity (index 5 with an explicit version, 4 without)
+					off := 0
+					if len(tbs.Kids) > 0 && tbs.Kids[0].Tag == 0xA0 {
+						off = 1
+					}
+					if len(tbs.Kids) > 4+off {
+						target = tbs.Kids[4+off]
+						if len(target.Kids) > 0 && rng.Intn(2) == 0 {
+							// duplicate one RDN and spoil the value of the copy
+							i := rng.Intn(len(target.Kids))
+							raw := target.Kids[i].Encode()
+							if cp, _, err := ParseNode(raw); err == nil {
+								spoilValue(cp, rng)
+								target.Kids = append(target.Kids, cp)
+								changed = true
+								continue
+							}
 						}
 					}
 				}
+				if mutateNode(target, rng, 0) {
+					changed = true
+				}
 			}
-			if !mutateNode(target, rng, 0) {
+			if !changed {
 				continue
 			}
 			der = root.Encode()
